@@ -89,3 +89,298 @@ class C09(IRCheck):
                 root = t.bin(rng.choice(OPS), root, g.gen(t, 1), g.w())
             gs.append([case("m%d" % i, "fold", t, root, make_envs(rng, t.regs(), t.mems(), 4))])
         return gs
+
+
+IR_LEVEL = ("Trace validation against the TLA+ reference semantics: every recorded call of the real transformation is "
+            "judged by TLC against ExprIR!Eval / BV (an independent byte-wise evaluator, itself model-checked against "
+            "integer arithmetic in BV_MC). Exhaustive over operators, node kinds and width relations at small scope; "
+            "sampled over 64-bit-and-wider values (edge grids + seeded random).")
+IR_NOTE = ("Trusted: TLC, the Json community module, the BV/ExprIR modules (BV_MC-checked), the harness's "
+           "expression (de)serialiser. Values above one byte are sampled, not enumerated.")
+for _c in (C09,):
+    _c.level_text, _c.level_note = IR_LEVEL, IR_NOTE
+
+EDGE_SHIFT = [0, 1, 7, 8, 9, 15, 16, 31, 32, 63, 64, 65, 127, 128, 255]
+
+
+def cbytes(n, w):
+    return [(n >> (8 * i)) & 255 for i in range(w)]
+
+
+def edge_values(rng, w, k):
+    """k interesting w-byte values (as byte lists): carries across every byte, sign boundaries, random"""
+    full = (1 << (8 * w)) - 1
+    vs = [0, 1, 2, full, full - 1, 1 << (8 * w - 1), (1 << (8 * w - 1)) - 1, 0xFF, 0x100 & full, 0x80,
+          full // 3, full // 255]
+    out = [cbytes(v & full, w) for v in vs]
+    while len(out) < k + len(vs):
+        out.append(edge_bytes(rng, w))
+    rng.shuffle(out)
+    return out[:k]
+
+
+class C10(IRCheck):
+    pid = "C10"
+    level_text, level_note = IR_LEVEL, IR_NOTE
+    rule = ("cases: one operation (Add Lsh Rsh Mul Div Nand, unsigned less) on two constants; operation widths "
+            "1,2,3,4,8,16,32,64,255 x operand widths shorter/equal/longer x edge-value grid (carries across all bytes, "
+            "sign boundaries, shift amounts around 8w, divisors 0/1/max/truncated-to-zero) + seeded random; exhaustive "
+            "over all 256x256 one-byte operand pairs per operator at operation width 1 (table events); expected value "
+            "from BV; non-trivial = operands not both zero; distinct by (op, widths, operand bytes)")
+    assumptions = ["operand values above one byte are sampled (edge grid + seeded random), not enumerated"]
+    exhaustive_part = "all one-byte operand pairs x 7 operators at operation width 1"
+
+    def nontrivial_key(self, group, events):
+        e = events[0]
+        if e["panic"]:
+            return None
+        if e["op"] == "optable":
+            return repr((e["o"], e["w"], e["x"]))
+        cs = [n for n in e["nodes"] if n["k"] == "c"]
+        if all(not any(c["b"]) for c in cs):
+            return None
+        return repr((e["nodes"], e["inp"]))
+
+    def groups(self, tier, seed):
+        rng = random.Random(seed * 104729 + 10)
+        gs = []
+        env = [{"regs": {}, "mem": {}}]
+        nval = 3 if tier == "quick" else 7
+        wops = [1, 2, 3, 4, 8, 16, 32, 64, 255]
+        k = 0
+        for w in wops:
+            for (w1, w2) in {(w, w), (max(1, w // 2), w), (w, max(1, w // 2)), (min(255, w + 1), w), (w, min(255, 2 * w)),
+                             (1, w), (w, 1)}:
+                for op in OPS + [0]:
+                    if op == 5 and w > 64:
+                        reps = 1 if tier == "quick" else 2
+                    else:
+                        reps = nval
+                    for _ in range(reps):
+                        t = Table()
+                        a = edge_values(rng, w1, 1)[0]
+                        b = edge_values(rng, w2, 1)[0]
+                        if op in (2, 3) and rng.random() < 0.8:
+                            s = rng.choice(EDGE_SHIFT + [8 * w - 1, 8 * w, 8 * w + 1])
+                            b = cbytes(s, w2) if rng.random() < 0.8 else cbytes(s + (1 << (8 * min(w, w2))), w2 + 1)[:w2]
+                        if op == 5 and rng.random() < 0.3:
+                            # divisors 0, 1, max, and one that only becomes zero by truncation
+                            b = rng.choice([cbytes(0, w2), cbytes(1, w2), [255] * w2,
+                                            ([0] * min(w, w2) + [1] * w2)[:w2]])
+                        ia, ib = t.const(a), t.const(b)
+                        if op == 0:
+                            root = t.less(ia, ib, t.const([1]), t.const([2]), w)
+                        else:
+                            root = t.bin(op, ia, ib, w)
+                        gs.append([case("g%d" % k, "fold", t, root, env)])
+                        k += 1
+        # exhaustive one-byte tables: operator o, operation width 1, x fixed, all 256 y
+        xs = range(256) if tier == "thorough" else sorted(set(rng.sample(range(256), 24) + [0, 1, 127, 128, 255]))
+        for op in OPS + [0]:
+            for x in xs:
+                gs.append([{"case": "t%d_%d" % (op, x), "op": "optable", "o": op, "w": 1, "x": [x], "nodes": [], "root": 0,
+                            "envs": env}])
+        self.exhaustive = tier == "thorough"
+        return gs
+
+
+GADGETS2 = ["Sub", "Mod", "SignedMul", "SignedDiv", "SignedMod", "RshA", "BitAnd", "BitOr", "BitXor"]
+GADGETS1 = ["Negate", "Abs", "BitNot", "Bool", "Not", "IntNegative", "WidthGadget"]
+GADGETS4 = ["Eq", "Lts", "Leu", "Les"]
+
+
+class C11(IRCheck):
+    pid = "C11"
+    level_text, level_note = IR_LEVEL, IR_NOTE
+    rule = ("cases: each of the 24 exported gadgets at widths 1,2,4,8,16 (SignedMul up to 8), built (R1) on constant "
+            "operands and folded by ConstFold and (R2) on register operands and evaluated by ExprIR!Eval; operand values "
+            "from the edge grid (0, +-1, MIN, MAX, sign boundary, carries) x seeded random, all value pairs from a "
+            "16-value grid at width 1; expected from Gadgets!Ref (written from the doc-comments); non-trivial = not all "
+            "operands zero; distinct by (gadget, width, operand values, route)")
+    assumptions = ["operands have the gadget's documented width (mixed widths only where the documentation defines them)",
+                   "SignExtend is exercised only with a sign bit inside the result width (documented as undefined otherwise)",
+                   "values above one byte are sampled"]
+
+    def nontrivial_key(self, group, events):
+        e = events[0]
+        if e["panic"]:
+            return None
+        return repr((e["g"], e["w"], e["bit"], [n for n in e["nodes"][:6]], e["envs"]))
+
+    def groups(self, tier, seed):
+        rng = random.Random(seed * 15485863 + 11)
+        gs = []
+        reps = 2 if tier == "quick" else 10
+        k = [0]
+
+        def add(g, w, vals, bit=0, widths=None):
+            """vals: operand byte lists. Emits R1 (constants) and R2 (registers)."""
+            for route in ("c", "r"):
+                t = Table()
+                args, regs = [], {}
+                for i, v in enumerate(vals):
+                    if route == "c":
+                        args.append(t.const(v))
+                    else:
+                        args.append(t.reg("a%d" % i, len(v)))
+                        regs["a%d" % i] = v + [rng.choice([0, 255, 0x5A])] * 3   # junk above the register width
+                env = [{"regs": regs, "mem": {}}]
+                c = {"case": "%s%d" % (route, k[0]), "op": "gadget", "g": g, "w": w, "bit": bit, "nodes": t.nodes,
+                     "root": 0, "args": args, "envs": env}
+                gs.append([c])
+                k[0] += 1
+
+        widths = [1, 2, 4, 8, 16]
+        for w in widths:
+            vs = edge_values(rng, w, 6 + reps)
+            for g in GADGETS2:
+                if g == "SignedMul" and w > 8:
+                    continue
+                pairs = [(rng.choice(vs), rng.choice(vs)) for _ in range(reps * 6)]
+                if g in ("SignedDiv", "SignedMod", "Mod"):
+                    mn = cbytes(1 << (8 * w - 1), w)
+                    pairs += [(mn, [255] * w), (mn, cbytes(1, w)), (vs[0], [0] * w), ([255] * w, [255] * w),
+                              (cbytes(7, w), cbytes((1 << (8 * w)) - 2, w)), (cbytes((1 << (8 * w)) - 7, w), cbytes(2, w)),
+                              (cbytes((1 << (8 * w)) - 7, w), cbytes((1 << (8 * w)) - 2, w))]
+                if g == "RshA":
+                    pairs = [(a, cbytes(rng.choice([0, 1, 7, 8, 8 * w - 1, 8 * w, 8 * w + 1, 255]) % (1 << 8 * w), w))
+                             for a, _ in pairs]
+                for a, b in pairs:
+                    add(g, w, [a, b])
+                    if g in ("Sub", "BitAnd", "BitOr", "BitXor") and rng.random() < 0.5:
+                        # documented mixed widths: operands are zero-extended / truncated to w
+                        w1 = rng.choice([1, 2, 4, 8, 16])
+                        add(g, w, [edge_bytes(rng, w1), b])
+            for g in GADGETS1:
+                for a in vs[:reps * 3]:
+                    if g in ("Abs",):
+                        add(g, w, [a])
+                    else:
+                        w1 = rng.choice([w, w, 1, 2, 4, 8, 16]) if g != "Negate" else w
+                        add(g, w, [edge_bytes(rng, w1) if w1 != w else a])
+            add("Ones", w, [])
+            for g in GADGETS4:
+                for _ in range(reps * 4):
+                    a, b = rng.choice(vs), rng.choice(vs)
+                    if rng.random() < 0.3:
+                        b = a
+                    tv, fv = edge_bytes(rng, rng.choice([1, w, 2 * w])), edge_bytes(rng, rng.choice([1, w, 2 * w]))
+                    add(g, w, [a, b, tv, fv])
+            for _ in range(reps * 3):
+                c = rng.choice([[0] * w, cbytes(1, w), [0] * (w - 1) + [128], edge_bytes(rng, w),
+                                edge_bytes(rng, max(1, w // 2))])
+                add("BoolCond", w, [c, edge_bytes(rng, rng.choice([1, w, 2 * w])), edge_bytes(rng, rng.choice([1, w]))])
+            for _ in range(reps * 3):
+                sb = rng.choice([0, 1, 6, 7, 8, 8 * w - 2, 8 * w - 1, rng.randrange(8 * w)]) % (8 * w)
+                add("SignExtend", w, [edge_bytes(rng, w), cbytes(sb, rng.choice([1, 2]))])
+            for _ in range(reps * 3):
+                bit = rng.choice([0, 1, 7, 8, 9, 8 * w - 1, 8 * w, 63, 64, 65, rng.randrange(8 * w + 1)])
+                bit = min(bit, 8 * w)
+                add("MaskBits", w, [edge_bytes(rng, rng.choice([w, 1, 2 * w]))], bit=bit)
+        # width 1: all pairs over a 16-value grid for the two-operand and comparison gadgets
+        grid = [0, 1, 2, 3, 7, 8, 0x7E, 0x7F, 0x80, 0x81, 0xAA, 0xF0, 0xFD, 0xFE, 0xFF, 0x55]
+        if tier == "quick":
+            grid = grid[::2] + [0xFF]
+        for g in GADGETS2:
+            for a in grid:
+                for b in grid:
+                    add(g, 1, [[a], [b]])
+        for g in ("Lts", "Les", "Leu", "Eq"):
+            for a in grid:
+                for b in grid:
+                    add(g, 1, [[a], [b], [1], [2]])
+        return gs
+
+
+def stack_gadgets(rng, t, g, e, n):
+    for _ in range(n):
+        e = t.wg(e, g.w())
+    return e
+
+
+class WGGen(ExprGen):
+    """ExprGen that wraps sub-expressions in stacked width gadgets in every context."""
+
+    def gen(self, t, depth):
+        e = ExprGen.gen(self, t, depth)
+        if self.rng.random() < 0.35:
+            e = stack_gadgets(self.rng, t, self, e, self.rng.choice([1, 1, 2, 3]))
+        return e
+
+
+class C12(IRCheck):
+    pid = "C12"
+    level_text, level_note = IR_LEVEL, IR_NOTE
+    rule = ("cases: SetWidth(e, w) for target widths 1,2,3,4,8,16 and PurgeWidthGadgets(e) on seeded random DAGs with "
+            "stacked width gadgets (growing, shrinking, shrink-then-grow) in every context (binary operand, condition, "
+            "branch, load address); expected Adapt(Eval(e), w) resp. Eval(e) under 5 environments; non-trivial = the "
+            "output differs structurally from the input; distinct by (op, input DAG, target width)")
+    assumptions = ["5 environments per expression", "memory is a total function of the address"]
+
+    def groups(self, tier, seed):
+        rng = random.Random(seed * 32452843 + 12)
+        n = 500 if tier == "quick" else 8000
+        gs = []
+        for i in range(n):
+            t = Table()
+            g = WGGen(rng, widths=(1, 2, 3, 4, 8) if i % 3 else (1, 2, 4, 8, 16))
+            root = g.gen(t, rng.choice([1, 2, 3, 3, 4]))
+            envs = make_envs(rng, t.regs(), t.mems(), 5)
+            if i % 2:
+                gs.append([case("p%d" % i, "purge", t, root, envs)])
+            else:
+                gs.append([case("s%d" % i, "setwidth", t, root, envs, w=rng.choice([1, 2, 3, 4, 8, 16]))])
+        # targeted: gadget chains on a load address / operand with all width relations
+        k = 0
+        for wa in (1, 2, 4, 8):
+            for wg1 in (1, 2, 4, 8):
+                for wg2 in (0, 1, 4, 8):
+                    for wl in (1, 2, 8):
+                        t = Table()
+                        a = t.reg("r1", wa)
+                        a = t.wg(a, wg1)
+                        if wg2:
+                            a = t.wg(a, wg2)
+                        for ctx in ("mem", "bin", "less"):
+                            if ctx == "mem":
+                                root = t.mem("m1", a, wl)
+                            elif ctx == "bin":
+                                root = t.bin(rng.choice(OPS), a, t.reg("r2", 4), wl)
+                            else:
+                                root = t.less(a, t.reg("r2", 2), a, t.const([5]), wl)
+                            envs = make_envs(rng, t.regs(), t.mems(), 4)
+                            gs.append([case("a%d" % k, "purge", t, root, envs)])
+                            gs.append([case("b%d" % k, "setwidth", t, root, envs, w=rng.choice([1, 2, 3, 4, 8, 16]))])
+                            k += 1
+        return gs
+
+
+class C13(IRCheck):
+    pid = "C13"
+    level_text, level_note = IR_LEVEL, IR_NOTE
+    rule = ("cases: Possibilities(e) on seeded random DAGs with up to 4 (nested) conditionals, conditionals under "
+            "binary operands, in load addresses, in conditions and in branches; under 6 environments the value of e "
+            "must equal the value of one alternative, every alternative has e's width and no conditional; "
+            "non-trivial = at least two alternatives; distinct by input DAG")
+    assumptions = ["6 environments per expression", "memory is a total function of the address"]
+
+    def groups(self, tier, seed):
+        rng = random.Random(seed * 49979687 + 13)
+        n = 700 if tier == "quick" else 10000
+        gs = []
+        i = 0
+        tries = 0
+        while len(gs) < n and tries < 50 * n:
+            tries += 1
+            t = Table()
+            g = ExprGen(rng, p_less=rng.choice([0.25, 0.4, 0.5]))
+            root = g.gen(t, rng.choice([1, 2, 3, 3, 4]))
+            nless = sum(1 for x in t.nodes if x["k"] == "l")
+            if nless > 4:
+                continue
+            if nless == 0 and rng.random() < 0.9:
+                continue
+            envs = make_envs(rng, t.regs(), t.mems(), 6)
+            gs.append([case("q%d" % i, "poss", t, root, envs)])
+            i += 1
+        return gs
